@@ -32,6 +32,9 @@ pub struct CircuitRunner<'a, F> {
     non_primitive_op_index_by_id: Vec<Option<usize>>,
     /// Operation-specific execution state (e.g., Poseidon chaining, row records).
     op_states: OpStateMap,
+    /// Verification hook (feature `p3r-verif`): handed to every non-primitive op's context.
+    #[cfg(feature = "p3r-verif")]
+    verif_free_state_tamper: Option<crate::ops::VerifFreeStateTamper<F>>,
 }
 
 impl<'a, F: Field> CircuitRunner<'a, F> {
@@ -76,7 +79,16 @@ impl<'a, F: Field> CircuitRunner<'a, F> {
             non_primitive_op_private_data,
             non_primitive_op_index_by_id,
             op_states,
+            #[cfg(feature = "p3r-verif")]
+            verif_free_state_tamper: None,
         }
+    }
+
+    /// Verification hook (feature `p3r-verif`): install a callback over the private (not
+    /// witness-fed) input state of every chained permutation op.
+    #[cfg(feature = "p3r-verif")]
+    pub fn set_verif_free_state_tamper(&mut self, t: crate::ops::VerifFreeStateTamper<F>) {
+        self.verif_free_state_tamper = Some(t);
     }
 
     /// Sets public input values into witness table.
@@ -291,13 +303,17 @@ impl<'a, F: Field> CircuitRunner<'a, F> {
                     executor,
                     op_id,
                 } => {
-                    let mut ctx = ExecutionContext::new(
+                    let ctx = ExecutionContext::new(
                         &mut self.witness,
                         &self.non_primitive_op_private_data,
                         &self.circuit.enabled_ops,
                         *op_id,
                         &mut self.op_states,
                     );
+                    #[cfg(feature = "p3r-verif")]
+                    let ctx =
+                        ctx.with_verif_free_state_tamper(self.verif_free_state_tamper.as_ref());
+                    let mut ctx = ctx;
 
                     executor.execute(inputs, outputs, &mut ctx)?;
                 }
